@@ -28,6 +28,7 @@ try:
         os.makedirs(os.path.dirname(os.path.join(wt, f)), exist_ok=True); shutil.copy(os.path.join("/repo", f), os.path.join(wt, f))
     demo_src = os.path.join(seed, "demo_test.go")
     demo_dst = os.path.join(wt, meta["demo_path"])
+    os.makedirs(os.path.dirname(demo_dst), exist_ok=True)
     shutil.copy(demo_src, demo_dst)
     rc, out = sh(meta["demo_run"].split(), cwd=wt)
     res["demo_clean_pass"] = rc == 0
